@@ -26,6 +26,7 @@ HELPERS = {
     "__symx_issym__": core.symx_issym,
     "__symx_ite__": core.symx_ite,
     "__symx_div__": core.symx_div,
+    "__symx_fstring__": core.symx_fstring,
 }
 
 
